@@ -362,6 +362,23 @@ func errDisciplineSeen(c *Check) {
 	c.Rule("E3", "an error known to be nil is not handed on as the failure (the failure branch is not taken when the step succeeded)", 0)
 	c.Rule("E1", "in every function this property's rules looked at, the error result of a step (a call) is read - tested, returned, passed on or stored - on every path before it is overwritten or the function returns: no failed step is silently treated as done", e1Floor[c.ID])
 	errDiscipline(c, "E1", fis)
+	c.Rule("E4", "the value of a two-valued type assertion, map lookup or channel receive is not read where its ok flag is false (there it is the zero value: a nil connection, an empty entitlement, reply code 0)", 0)
+	for _, fi := range fis {
+		obs := commaOkSites(c.P, fi)
+		var keys []string
+		for k := range obs {
+			keys = append(keys, k)
+		}
+		sort.Strings(keys)
+		for _, k := range keys {
+			full := fi.Pkg.Types.Name() + "." + k
+			if why, ok := errLookedAtExceptions["E4 "+full]; ok {
+				c.Except("E4 " + full + ": " + why)
+				continue
+			}
+			c.Hold("E4", full, fi.Decl.Pos(), obs[k] == "", obs[k])
+		}
+	}
 }
 
 // e1Floor: number of error-producing steps seen in each property's functions on the reference tree, halved (behaviour-preserving restructuring moves steps between functions; the floor only guards against a vacuous pass).
@@ -402,5 +419,128 @@ func readsObjReal(info *types.Info, n ast.Node, o types.Object) bool {
 		}
 		return true
 	})
+	return found
+}
+
+
+// E4 comma-ok discipline: the value of `v, ok := x.(T)`, `v, ok := m[k]` or `v, ok := <-ch` is not read where ok is
+// known to be false (it is the zero value there: a nil pointer, an empty entitlement, code 0).
+func commaOkSites(p *Prog, fi *FuncInfo) map[string]string {
+	out := map[string]string{}
+	if fi.Decl.Body == nil {
+		return out
+	}
+	info := fi.Info()
+	bodies := []*ast.BlockStmt{fi.Decl.Body}
+	ast.Inspect(fi.Decl.Body, func(x ast.Node) bool {
+		if fl, ok := x.(*ast.FuncLit); ok {
+			bodies = append(bodies, fl.Body)
+		}
+		return true
+	})
+	ord := 0
+	for bi, body := range bodies {
+		f := p.FlowOf(info, body, fi.Name())
+		for _, pt := range f.Points() {
+			as, ok := pt.Node().(*ast.AssignStmt)
+			if !ok || len(as.Lhs) != 2 || len(as.Rhs) != 1 {
+				continue
+			}
+			kind := ""
+			switch r := ast.Unparen(as.Rhs[0]).(type) {
+			case *ast.TypeAssertExpr:
+				if r.Type != nil {
+					kind = "assert"
+				}
+			case *ast.IndexExpr:
+				if _, isMap := info.TypeOf(r.X).Underlying().(*types.Map); isMap {
+					kind = "map"
+				}
+			case *ast.UnaryExpr:
+				if r.Op == token.ARROW {
+					kind = "recv"
+				}
+			}
+			if kind == "" {
+				continue
+			}
+			v, okv := objOf(info, as.Lhs[0]), objOf(info, as.Lhs[1])
+			if v == nil || okv == nil || v.Name() == "_" || okv.Name() == "_" {
+				continue
+			}
+			if _, isVar := okv.(*types.Var); !isVar || !isBoolType(okv.Type()) {
+				continue
+			}
+			ord++
+			key := refName(fi.Obj)
+			if bi > 0 {
+				key += "$lit" + itoa(bi)
+			}
+			key += ":" + kind + ":" + v.Name() + itoa(ord)
+			reads := func(q Pt) bool {
+				if q == pt || q.Node() == nil || q.Node() == pt.Node() {
+					return false
+				}
+				return readsUnguarded(info, q.Node(), v, okv)
+			}
+			redef := func(q Pt) bool {
+				return q != pt && q.Node() != nil && (assignsObj(info, q.Node(), v) || assignsObj(info, q.Node(), okv)) && !readsObj(info, q.Node(), v)
+			}
+			// the loop may re-execute the definition: that is a new value
+			redef2 := func(q Pt) bool { return q == pt || redef(q) }
+			msg := ""
+			if path, found := f.ReachRefined2(pt, okv, true, true, reads, redef2, nil); found {
+				msg = "the value of a failed " + map[string]string{"assert": "type assertion", "map": "map lookup", "recv": "receive from a closed channel"}[kind] + " (" + v.Name() + ", the zero value) is used: " + f.Describe(path)
+			}
+			out[key] = msg
+		}
+	}
+	return out
+}
+
+
+// readsUnguarded: node n reads v outside the right operand of `ok && …` / `!ok || …` (where ok is known true).
+func readsUnguarded(info *types.Info, n ast.Node, v, okv types.Object) bool {
+	if _, bare := n.(*ast.Ident); bare {
+		return false // go/cfg lists the targets of a select-case / range assignment as bare identifiers
+	}
+	found := false
+	var walk func(x ast.Node)
+	walk = func(x ast.Node) {
+		inspectNoLit(x, func(y ast.Node) bool {
+			if found {
+				return false
+			}
+			if be, isBin := y.(*ast.BinaryExpr); isBin && (be.Op == token.LAND || be.Op == token.LOR) {
+				// does the left operand establish ok == true for the right one?
+				est := false
+				for _, af := range atomsOnEdge(be.X, map[token.Token]int{token.LAND: 0, token.LOR: 1}[be.Op]) {
+					if objOf(info, af.E) == okv && af.T {
+						est = true
+					}
+				}
+				if est {
+					walk(be.X)
+					return false
+				}
+			}
+			if as, isAs := y.(*ast.AssignStmt); isAs && (as.Tok == token.ASSIGN || as.Tok == token.DEFINE) {
+				for _, r := range as.Rhs {
+					walk(r)
+				}
+				for _, l := range as.Lhs {
+					if _, isID := ast.Unparen(l).(*ast.Ident); !isID {
+						walk(l)
+					}
+				}
+				return false
+			}
+			if id, isID := y.(*ast.Ident); isID && info.Uses[id] == v {
+				found = true
+			}
+			return true
+		})
+	}
+	walk(n)
 	return found
 }
